@@ -196,8 +196,11 @@ def run_check(prop, tier, replay_path=None):
         "known_findings_reobserved": [l for l in lines if l.startswith("KNOWN-FINDING")],
     }
     if not replay_path:
-        (C.VERIF / "evidence").mkdir(exist_ok=True)
-        (C.VERIF / "evidence" / f"{prop}.json").write_text(json.dumps(ev, indent=1, default=str))
+        # evidence is only ever written from a run against /repo itself; trial runs against a scratch copy
+        # (COVFIE_REPO=...) leave the committed record alone
+        edir = C.VERIF / ("evidence" if str(C.REPO) == "/repo" else ".work/evidence-scratch")
+        edir.mkdir(parents=True, exist_ok=True)
+        (edir / f"{prop}.json").write_text(json.dumps(ev, indent=1, default=str))
     for l in lines:
         print(l)
     print(f"{prop} tier={tier} seed={seed}: theorems {n_thm_ok}/{len(thms)} checked, correspondence obligations "
